@@ -141,7 +141,7 @@ structure Conf where
   allRows : Bool := false
   skip : Skip := .pastLast
   within : Int := 0
-  maxRows : Nat := 10000
+  maxRows : Option Nat := none
   showCls : Bool := false
   pat : Option PNode := none
   defs : List (Sym × List Atom) := []
@@ -167,7 +167,7 @@ def parseConf (lines : List (List String)) : Conf := Id.run do
       | some n => c := { c with within := n }
       | none => c := { c with bad := true }
     | ["maxrows", n] => match n.toNat? with
-      | some n => c := { c with maxRows := n }
+      | some n => c := { c with maxRows := some n }
       | none => c := { c with bad := true }
     | ["cls", b] => c := { c with showCls := b == "t" }
     | "pat" :: toks => match parsePat toks with
@@ -179,18 +179,15 @@ def parseConf (lines : List (List String)) : Conf := Id.run do
     | _ => pure ()
   return c
 
-/-- `e.within <= 0 → DefaultMatchWithin` (1h in ns) -/
-def effWithin (w : Int) : Int := if w ≤ 0 then 3600000000000 else w
-
 def modelCfg (cf : Conf) (n : NFA) (lazy : Bool) : Cfg Row :=
   { tbl := n.tbl, start := n.start, lazy := lazy, skip := cf.skip, within := effWithin cf.within,
-    maxRunRows := cf.maxRows, define := defineOf cf.defs, ts := fun r => r.ts }
+    maxRunRows := cf.maxRows.getD defaultMaxRunRows, define := defineOf cf.defs, ts := fun r => r.ts }
 
 def specQuery (cf : Conf) (p : Pat) (lazy : Bool) : Spec.Query Row :=
   { pat := p, skip := cf.skip, within := effWithin cf.within, define := defineOf cf.defs,
     ts := fun r => r.ts,
     -- a configured row limit is a guard: with the guard in play only validity is required
-    greedy := !lazy && cf.maxRows ≥ 10000,
+    greedy := !lazy && cf.maxRows.isNone,
     keySyms := some (cf.defs.flatMap fun d => d.2.flatMap fun a => termSyms a.l ++ termSyms a.r) }
 
 /-! ### MEASURES projection of a match (what the harness's MEASURES clause asks for) -/
